@@ -18,7 +18,23 @@ from harness import extract
 from harness import llh_fixtures as fx
 from harness.core import f2b, flist, ilist, b2f
 
-MODEL_MODULES = ['SkyllhModel.Model.LLH', 'SkyllhModel.Model.Weights']
+MODEL_MODULES = ['SkyllhModel.Model.LLH', 'SkyllhModel.Model.Weights', 'SkyllhModel.Model.LLHR7']
+
+# which Python callables have an executable Lean counterpart that the c01_* theorems are about and that run(ctx) compares
+# with the real callable on every run
+MODEL_MAP = {
+    'skyllh/core/llhratio.py::ZeroSigH0SingleDatasetTCLLHRatio.calculate_log_lambda_and_grads': [
+        'LLH.calcLogLambda', 'LLH.logLambdaBuffer', 'LLH.stableMask', 'LLH.pass1', 'LLH.gatherU', 'LLH.scatterU', 'LLH.sumOpt',
+        'LLH.taylorBranchC', 'LLH.llr', 'LLH.lamOfAlpha', 'LLH.taylorBranch', 'LLH.tildeAlpha', 'LLH.pureBkgTerm'],
+    'skyllh/core/llhratio.py::ZeroSigH0SingleDatasetTCLLHRatio.evaluate': [
+        'LLH.llrOfRatios', 'LLH.xOfRatio', 'LLH.llrChecked', 'LLH.evalSel', 'LLH.trialStep', 'LLH.trialRun'],
+    'skyllh/core/pdfratio.py::SigOverBkgPDFRatio.get_ratio': ['LLH.ratioSOB', 'LLH.sobValues'],
+    'skyllh/core/pdfratio.py::PDFRatioProduct.get_ratio': ['LLH.ratioProduct', 'LLH.ratioProductChecked'],
+    # SourceWeightedPDFRatio.get_ratio is compared here too (driver C03, Weights.ratioWeighted / densify / akOfDataset), but its
+    # theorems live in Props/C03.lean: listed in C03's map, not here
+    'skyllh/core/trialdata.py::TrialDataManager.initialize_trial': ['LLH.trialCounts'],
+    'skyllh/core/trialdata.py::DataField._calc_global_fitparam_dependent_values': ['LLH.fieldStep', 'LLH.fieldRun'],
+}
 
 OPA_RECORDED = 1e-3
 ZB_RECORDED = 1.0
@@ -57,15 +73,111 @@ def _constants_uncached(ctx=None):
     return opa, zb
 
 
+# round 7: structure of the Taylor branch / the stability mask / the signatures, read from the source with `ast`
+R7_RECORDED = dict(coeff=0.5, power=2, strict=True, sob_strict=True,
+                   calc_params=['N', 'ns', 'ns_pidx', 'p_mask', 'Xi', 'dXi_dp'],
+                   eval_params=['fitparam_values', 'src_params_recarray', 'tl'], n_events_default_none=True)
+_R7_CACHE = []
+
+
+def _r7_structure(ctx=None):
+    """coefficient and exponent of the quadratic term of the continuation (`0.5 * tildealpha_i**2`), the comparison
+    operator of `m_stable = alpha_i > alpha`, the operator of the background mask of SigOverBkgPDFRatio.get_ratio
+    (`bkg_pd > 0`), the parameter lists of calculate_log_lambda_and_grads / evaluate and the default of
+    TrialDataManager.initialize_trial(n_events=...).  Anything that cannot be found (code rewritten, e.g. Horner form)
+    falls back to the recorded value with a note; the correspondence then decides."""
+    if ctx is None and _R7_CACHE:
+        return _R7_CACHE[0]
+    import ast
+    r = dict(R7_RECORDED)
+    fallbacks = []
+    try:
+        tree = extract.parse('skyllh/core/llhratio.py')
+        fn = extract.find_func(extract.find_class(tree, 'ZeroSigH0SingleDatasetTCLLHRatio'), 'calculate_log_lambda_and_grads')
+        found_c = found_m = False
+        for node in ast.walk(fn):
+            if (isinstance(node, ast.BinOp) and isinstance(node.op, ast.Mult) and isinstance(node.left, ast.Constant)
+                    and isinstance(node.right, ast.BinOp) and isinstance(node.right.op, ast.Pow)
+                    and isinstance(node.right.left, ast.Name) and node.right.left.id == 'tildealpha_i'
+                    and isinstance(node.right.right, ast.Constant) and not found_c):
+                r['coeff'], r['power'] = float(node.left.value), int(node.right.right.value)
+                if r['power'] != node.right.right.value:
+                    raise ValueError('non-integer exponent %r' % (node.right.right.value,))
+                found_c = True
+            if (isinstance(node, ast.Assign) and len(node.targets) == 1 and isinstance(node.targets[0], ast.Name)
+                    and node.targets[0].id == 'm_stable' and isinstance(node.value, ast.Compare)
+                    and len(node.value.ops) == 1 and isinstance(node.value.ops[0], (ast.Gt, ast.GtE))
+                    and isinstance(node.value.left, ast.Name) and node.value.left.id == 'alpha_i'
+                    and isinstance(node.value.comparators[0], ast.Name) and node.value.comparators[0].id == 'alpha'):
+                r['strict'] = isinstance(node.value.ops[0], ast.Gt)
+                found_m = True
+        if not found_c:
+            fallbacks.append('taylor coefficient: no `<const> * tildealpha_i**<const>` in calculate_log_lambda_and_grads')
+        if not found_m:
+            fallbacks.append('stability mask: no `m_stable = alpha_i >(=) alpha`')
+    except Exception as e:  # noqa
+        fallbacks.append('taylor structure: %s' % e)
+    try:
+        r['calc_params'] = list(extract.func_params('skyllh/core/llhratio.py', 'ZeroSigH0SingleDatasetTCLLHRatio',
+                                                    'calculate_log_lambda_and_grads')[0])
+        r['eval_params'] = list(extract.func_params('skyllh/core/llhratio.py', 'ZeroSigH0SingleDatasetTCLLHRatio', 'evaluate')[0])
+    except Exception as e:  # noqa
+        fallbacks.append('signatures: %s' % e)
+    try:
+        d = extract.arg_default('skyllh/core/trialdata.py', 'TrialDataManager', 'initialize_trial', 'n_events')
+        r['n_events_default_none'] = d is None
+    except Exception as e:  # noqa
+        fallbacks.append('initialize_trial(n_events=...): %s' % e)
+    try:
+        tree = extract.parse('skyllh/core/pdfratio.py')
+        fn = extract.find_func(extract.find_class(tree, 'SigOverBkgPDFRatio'), 'get_ratio')
+        ops = [type(n.ops[0]) for n in ast.walk(fn)
+               if isinstance(n, ast.Compare) and len(n.ops) == 1 and isinstance(n.ops[0], (ast.Gt, ast.GtE))
+               and isinstance(n.comparators[0], ast.Constant) and n.comparators[0].value == 0]
+        if len(ops) == 1:
+            r['sob_strict'] = ops[0] is ast.Gt
+        else:
+            fallbacks.append('background mask: %d comparisons `... > 0` in SigOverBkgPDFRatio.get_ratio' % len(ops))
+    except Exception as e:  # noqa
+        fallbacks.append('background mask: %s' % e)
+    if ctx is not None:
+        for f in fallbacks:
+            ctx.note('structure extraction failed, using the recorded value (%s)' % f)
+            ctx.proof['generated_fallbacks'].append(f)
+    if not _R7_CACHE:
+        _R7_CACHE.append(r)
+    return r
+
+
+def _names(ps):
+    return [p if isinstance(p, str) else p[0] for p in ps]
+
+
 def generated(ctx):
     opa, zb = _constants(ctx)
+    r7 = _r7_structure(ctx)
     return ('/- generated by harness/props/c01.py from skyllh/core/llhratio.py and pdfratio.py; do not edit -/\n'
             'namespace Gen.C01\n'
             '/-- `ZeroSigH0SingleDatasetTCLLHRatio._one_plus_alpha` -/\n'
             'def onePlusAlpha {F : Type} [OfScientific F] : F := %s\n'
             '/-- default of `SigOverBkgPDFRatio(zero_bkg_ratio_value=...)` -/\n'
             'def zeroBkgRatio {F : Type} [OfScientific F] : F := %s\n'
-            'end Gen.C01\n') % (extract.lean_float(opa), extract.lean_float(zb))
+            '/-- `<c> * tildealpha_i**<p>` in `calculate_log_lambda_and_grads` -/\n'
+            'def taylorCoeff {F : Type} [OfScientific F] : F := %s\n'
+            'def taylorPower : Nat := %d\n'
+            '/-- `m_stable = alpha_i > alpha` (true) or `>=` (false) -/\n'
+            'def stableStrict : Bool := %s\n'
+            '/-- `bkg_pd > 0` (true) or `>= 0` (false) in `SigOverBkgPDFRatio.get_ratio` -/\n'
+            'def sobStrict : Bool := %s\n'
+            '/-- parameter names of `calculate_log_lambda_and_grads` and `evaluate` (after self) -/\n'
+            'def calcParams : List String := %s\n'
+            'def evalParams : List String := %s\n'
+            '/-- `TrialDataManager.initialize_trial(n_events=None)` -/\n'
+            'def nEventsDefaultNone : Bool := %s\n'
+            'end Gen.C01\n') % (extract.lean_float(opa), extract.lean_float(zb), extract.lean_float(r7['coeff']), r7['power'],
+                                 'true' if r7['strict'] else 'false', 'true' if r7['sob_strict'] else 'false',
+                                 extract.lean_str_list(_names(r7['calc_params'])), extract.lean_str_list(_names(r7['eval_params'])),
+                                 'true' if r7['n_events_default_none'] else 'false')
 
 
 # --------------------------------------------------------------------------------------------------
@@ -808,8 +920,200 @@ def o_corr(ctx, case):
     return None
 
 
+# --------------------------------------------------------------------------------------------------
+# round 7: ZeroSigH0SingleDatasetTCLLHRatio.calculate_log_lambda_and_grads called directly (public method; evaluate
+# hands it N, ns, Xi): array-level model `calcLogLambda` (masks, uninitialised buffer, gather / scatter), with the glue
+# as generated dimensions (form of Xi / N / ns, number of further fit parameters, tracing, object re-used across calls)
+
+_DIRECT_OBJ = {}
+
+
+def _direct_llh(tracing):
+    if tracing not in _DIRECT_OBJ:
+        cfg = fx.make_cfg()
+        if tracing:
+            cfg['debugging']['enable_tracing'] = True
+        src = fx.make_sources(1)
+        shg = fx.make_shg_mgr(cfg, src)
+        pmm = fx.make_pmm(src)
+        tdm = fx.make_tdm(shg, pmm, 1, n_events=2)
+        _DIRECT_OBJ[tracing] = fx.make_single_llhratio(cfg, pmm, shg, tdm, fx.StubPDFRatio(cfg, np.ones((1, 1))))
+    return _DIRECT_OBJ[tracing]
+
+
+def direct_xi(case):
+    """Xi = (Ri - 1.)/N exactly as evaluate computes it (float64)"""
+    return (np.array(case['R'][0], dtype=np.float64) - 1.) / case['N']
+
+
+def direct_call(case, ns=None, fresh=False):
+    """-> (log_lambda, grads, text if an input array was written to)"""
+    d = case['direct']
+    if fresh:
+        _DIRECT_OBJ.pop(bool(d.get('tracing')), None)
+    llh = _direct_llh(bool(d.get('tracing')))
+    ns = case['ns'] if ns is None else ns
+    xi = direct_xi(case)
+    E = len(xi)
+    if d['xi'] == 'strided':
+        buf = np.full(2 * E + 1, 7.0)
+        buf[1::2] = xi
+        Xi = buf[1::2]
+    elif d['xi'] == 'readonly':
+        Xi = xi.copy()
+        Xi.setflags(write=False)
+    else:
+        Xi = xi.copy()
+    ncol = d['ncol']
+    pidx = d['pidx']
+    dX = np.zeros((E, ncol), dtype=np.float64)
+    if d['xi'] == 'readonly':
+        dX.setflags(write=False)
+    pm = np.ones((ncol + 1,), dtype=np.bool_)
+    pm[pidx] = False
+    N = {'int': int, 'np.int64': np.int64}[d['N']](case['N'])
+    nsv = {'float': float, 'np.float64': np.float64}[d['ns']](ns)
+    before = (Xi.tobytes(), dX.tobytes(), pm.tobytes())
+    with np.errstate(all='ignore'):
+        (v, g) = llh.calculate_log_lambda_and_grads(N=N, ns=nsv, ns_pidx=pidx, p_mask=pm, Xi=Xi, dXi_dp=dX)
+    touched = None
+    if (Xi.tobytes(), dX.tobytes(), pm.tobytes()) != before:
+        touched = 'calculate_log_lambda_and_grads wrote into one of its input arrays (Xi, dXi_dp, p_mask)'
+    return float(v), np.asarray(g), touched
+
+
+@_guard
+def o_direct(ctx, case):
+    opa, _ = _constants()
+    v, g, touched = direct_call(case)
+    where = 'calculate_log_lambda_and_grads(N=%d, ns=%r, Xi=(R-1)/N of %d events, forms %r)' % (
+        case['N'], case['ns'], case['E'], case['direct'])
+    if touched:
+        return touched + ' ' + where
+    if g.shape != (case['direct']['ncol'] + 1,):
+        return 'gradient array of shape %r for %d fit parameters; %s' % (g.shape, case['direct']['ncol'] + 1, where)
+    v0 = direct_call(case, ns=0.0)[0]
+    if not v0 == 0.0:
+        return 'log Lambda(ns=0) = %r, not exactly 0; %s' % (v0, where)
+    v2 = direct_call(case)[0]
+    if f2b(v2) != f2b(v):
+        return 'the same call after a call with ns=0 on the same object gives %r, before %r; %s' % (v2, v, where)
+    vf = direct_call(case, fresh=True)[0]
+    if f2b(vf) != f2b(v):
+        return 'a fresh object gives %r, the used one %r; %s' % (vf, v, where)
+    d = doc_formula(case, opa)
+    if d is None:
+        return None
+    ref, scale = float(d[0]), float(d[1])
+    if not abs(v - ref) <= REL_TOL * scale + _budget(case):
+        return 'log Lambda = %r but the documented formula gives %r (sum|terms| %.3g); %s' % (v, ref, scale, where)
+    return None
+
+
+def gen_direct_case(rng, opa, zb, cls):
+    if cls == 'threshold-exact':
+        # R = 0, N = 2^k, ns = N*(1 - opa): Xi = -1/N and alpha_i = ns*Xi are exact, alpha_i is the very float
+        # `one_plus_alpha - 1` the mask compares with (ns < N holds)
+        N = 2 ** rng.randrange(0, 5)
+        R = [0.0] + [gen_ratio(rng) for _ in range(rng.randrange(0, min(N, 4)))]
+        rng.shuffle(R)
+        base = dict(kind='single', E=len(R), N=N, R=[R], ns=N * -(opa - 1.0))
+    elif cls == 'empty':
+        N = rng.randrange(1, 50)
+        base = dict(kind='single', E=0, N=N, R=[[]], ns=rng.choice([0.0, rng.uniform(0, N) * (1 - 1e-9), -0.01]))
+    elif cls == 'all-taylor':
+        E = rng.randrange(1, 9)
+        N = E + rng.randrange(0, 5)
+        base = dict(kind='single', E=E, N=N, R=[[rng.choice([0.0, 1e-9 * rng.random(), 1e-4 * rng.random()]) for _ in range(E)]],
+                    ns=N * rng.uniform(0.9992, 0.99999))
+    else:
+        c = _strip(gen_case(rng, opa, zb, small=rng.random() < 0.5, kind='single'))
+        Rs = [float(x) for x in eff_ratios(c)]
+        base = dict(kind='single', E=len(Rs), N=c['N'], R=[Rs], ns=c['ns'])
+    base.update(mask=None, multi=False, key=None, n_none=False, share=False, ns2=None)
+    ncol = rng.choice([0, 0, 1, 2])
+    base['direct'] = dict(xi=rng.choice(['contiguous', 'contiguous', 'strided', 'readonly']), N=rng.choice(['int', 'np.int64']),
+                          ns=rng.choice(['float', 'np.float64']), ncol=ncol, pidx=rng.randrange(ncol + 1),
+                          tracing=rng.random() < 0.15, cls=cls)
+    return base
+
+
+def run_direct(ctx, opa, zb):
+    """the array-level model against the real method; returns nothing, reports violations itself"""
+    rng = ctx.rng
+    r7 = _r7_structure()
+    import inspect
+    try:
+        from skyllh.core.llhratio import ZeroSigH0SingleDatasetTCLLHRatio as _Z
+        params = [p for p in inspect.signature(_Z.calculate_log_lambda_and_grads).parameters if p != 'self']
+    except Exception as e:  # noqa
+        params = repr(e)
+    if params != R7_RECORDED['calc_params']:
+        ctx.note('calculate_log_lambda_and_grads has the parameters %r (recorded %r): the direct-call correspondence of the '
+                 'array-level model is skipped, the model is still compared through evaluate' % (params, R7_RECORDED['calc_params']))
+        ctx.extra['direct_call_correspondence'] = 'skipped (signature changed)'
+        return False
+    n = ctx.n(160, 4000)
+    classes = ['generated'] * 6 + ['threshold-exact', 'empty', 'all-taylor', 'all-taylor']
+    cases = [gen_direct_case(rng, opa, zb, classes[i % len(classes)]) for i in range(n)]
+    reqs = []
+    for c in cases:
+        xi = [float(x) for x in direct_xi(c)]
+        for strict in (1, 0):
+            reqs.append('msk %d %s %s %d %s %s' % (strict, f2b(opa), f2b(r7['coeff']), c['N'], f2b(c['ns']), flist(xi)))
+    ans = ctx.driver('C01', reqs)
+    for i, c in enumerate(cases):
+        d = c['direct']
+        ctx.case(key=('direct', c), desc={'direct': dict(c, R='...')} if i % 53 == 0 else None)
+        ctx.count('direct-call:class:' + d['cls'])
+        ctx.count('direct-call:Xi-form:' + d['xi'])
+        ctx.count('direct-call:N-form:' + d['N'] + ',ns-form:' + d['ns'])
+        ctx.count('direct-call:other-fit-parameters:%d,ns_pidx=%d%s' % (d['ncol'], d['pidx'], ',tracing' if d['tracing'] else ''))
+        a_src = ans[2 * i + (0 if r7['strict'] else 1)].split(' ')
+        a_oth = ans[2 * i + (1 if r7['strict'] else 0)].split(' ')
+        ctx.count('branch:calcLogLambda:any-unstable' if a_src[1] == '1' else 'branch:calcLogLambda:all-stable')
+        ctx.count('branch:pass1:stable-slot-written', int(a_src[3]))
+        ctx.count('branch:pass1:unstable-slot-left-uninitialised', int(a_src[2]))
+        ctx.count('branch:scatterU:slot-written', int(a_src[4]))
+        ctx.count('branch:scatterU:stable-slot-kept', int(a_src[3]) if a_src[1] == '1' else 0)
+        ctx.count('branch:stableMask:' + ('strict' if r7['strict'] else 'non-strict'))
+        if a_src[2] != a_oth[2]:
+            ctx.count('direct-call:event-exactly-at-threshold(mask operators differ, values must not)')
+        bad = None
+        try:
+            v, g, touched = direct_call(c)
+        except Exception as e:  # noqa
+            fx.reraise_fixture_error(e)
+            bad = 'calculate_log_lambda_and_grads raised %s: %s' % (type(e).__name__, e)
+        if bad is None:
+            if a_src[0] == 'none' or a_oth[0] == 'none':
+                bad = 'the array-level model reads an uninitialised slot (%s / %s)' % (a_src[0], a_oth[0])
+            else:
+                sc = _scale(c, opa)
+                tol = REL_TOL * (sc if sc == sc else 0.0) + _budget(c)
+                for m in (b2f(a_src[0]), b2f(a_oth[0])):
+                    if not (abs(v - m) <= tol or abs(v - m) <= REL_TOL * max(abs(v), abs(m)) + _budget(c) or (v != v and m != m)):
+                        bad = 'implementation %r, array-level model %r' % (v, m)
+                if c['ns'] == 0 and not (v == 0.0 and b2f(a_src[0]) == 0.0):
+                    bad = 'ns = 0: implementation %r, model %r, not both exactly 0' % (v, b2f(a_src[0]))
+                if touched:
+                    bad = touched
+        ctx.count('oracle:direct')
+        res = ORACLES['direct'](ctx, c)
+        if res:
+            ctx.violation('direct', c, res, signature='C01/calculate_log_lambda_and_grads/' + (
+                'raises' if res.startswith('evaluate raised') else 'differs-from-documented-formula'))
+        elif bad:
+            ctx.violation('corr', c, 'array-level model and calculate_log_lambda_and_grads disagree (%s) but the oracle does not '
+                          'fail on this input' % bad, kind='correspondence',
+                          relation='|impl - calcLogLambda| <= %.0e * sum|terms| + rounding budget' % REL_TOL,
+                          signature='C01/corr/direct', no_failing_input=True)
+    ctx.extra['direct_call_correspondence'] = '%d cases' % len(cases)
+    return True
+
+
 ORACLES = {'zero_at_ns0': o_zero_at_ns0, 'perm': o_perm, 'zero_removal': o_zero_removal,
-           'decimal': o_decimal, 'counts': o_counts, 'reuse': o_reuse, 'trials': o_trials, 'corr': o_corr}
+           'decimal': o_decimal, 'counts': o_counts, 'reuse': o_reuse, 'trials': o_trials, 'corr': o_corr, 'direct': o_direct}
 
 _SIG = {'zero_at_ns0': 'C01/evaluate/nonzero-at-ns0', 'perm': 'C01/evaluate/event-order-dependent',
         'zero_removal': 'C01/evaluate/zero-ratio-removal-changes-value',
@@ -1386,7 +1690,8 @@ def run(ctx):
                           kind='correspondence', relation='|impl - model| <= %.0e * sum|terms| for every evaluation within a trial; '
                           'exact 0 at ns=0; equal event counts' % REL_TOL,
                           impl_output=impl, model_output=ans, signature='C01/corr/' + cc['kind'], no_failing_input=True)
-    branch_report(ctx, MODEL_BRANCHES, UNREACHABLE_BRANCHES)
+    direct_ok = run_direct(ctx, opa, zb)
+    branch_report(ctx, MODEL_BRANCHES + (R7_BRANCHES if direct_ok else []), UNREACHABLE_BRANCHES)
 
 
 MODEL_BRANCHES = [
@@ -1396,6 +1701,8 @@ MODEL_BRANCHES = [
     'RExpr.eval:sob', 'RExpr.eval:none', 'llrChecked:some', 'llrChecked:none', 'ratioWeighted:A!=0',
     'trialStep:newTrial', 'trialStep:eval(trial initialised)', 'trialStep:eval(no trial)', 'fieldStep:recalculate',
     'fieldStep:keep']
+R7_BRANCHES = ['calcLogLambda:any-unstable', 'calcLogLambda:all-stable', 'pass1:stable-slot-written',
+               'pass1:unstable-slot-left-uninitialised', 'scatterU:slot-written', 'scatterU:stable-slot-kept']
 # branches of the model that no conforming input can reach through the implementation (error reports of the model only)
 UNREACHABLE_BRANCHES = {'sobValues:none': 'event index out of range / length mismatch of the values arrays: the index arrays come '
                         'from the TrialDataManager itself; exercised by the driver alone'}
@@ -1417,11 +1724,15 @@ MANIFEST = dict(
           'differentiable there; value 0 at ns=0; invariance under permutation of the events; removal of zero-ratio '
           'events with N kept (ns/N < 1 - threshold); N itself is independent of the selection (default n_events = raw '
           'event count); product / signal-over-background compositions, every nested composition (datatype RExpr), '
-          'and independence of earlier trials on the same object (trial state machine, refinement). The executable '
+          'and independence of earlier trials on the same object (trial state machine, refinement); the array-level code '
+          '(masked log1p into an uninitialised buffer, gather / continuation / scatter, sum) refines the event-wise formula for '
+          'either mask operator, never reads an unwritten slot, and the coefficient 1/2 of the continuation is forced; '
+          'coefficient, exponent, mask operators and signatures are read from the source. The executable '
           'model is compared with ZeroSigH0SingleDatasetTCLLHRatio.evaluate and MultiDatasetTCLLHRatio.evaluate on a '
           'real TrialDataManager on every run (three evaluations per trial and 2-3 trials on the same objects, leaf arrays handed out '
           'without copy, event counts compared as well); oracles (exact 0, permutation, zero-ratio removal, 60-digit decimal '
-          'formula, event counts, repeated evaluation with byte snapshots of all input arrays, trial histories vs. fresh objects) search the implementation '
+          'formula, event counts, repeated evaluation with byte snapshots of all input arrays, trial histories vs. fresh objects, direct calls of '
+          'calculate_log_lambda_and_grads with generated argument forms) search the implementation '
           'for failing inputs.'),
     note=('Theorems are about real numbers; IEEE rounding, numpy log1p and pairwise summation enter only through the '
           'tolerance-based correspondence (1e-10 of the sum of |terms|) and the exact-0 check. N >= 1, N >= N\', ns < N assumed.'),
